@@ -91,11 +91,23 @@ pub struct Records {
     pub site: u8,
     /// (credential 0/1, replace its record by one with this key seed first, ask from this other site instead, uv requirement)
     pub steps: Vec<(u8, Option<u8>, Option<u8>, u8)>,
+    /// the records' private scalars start with a zero byte and are written as minimal-length integers (31 bytes or fewer),
+    /// the way a foreign encoder may have written an imported key
+    #[serde(default)]
+    pub short_scalars: bool,
+    /// before the steps with these numbers an assertion is attempted on a third held credential whose key the
+    /// authenticator cannot use (no alg member / another algorithm): whatever it answers is not judged, what follows is
+    #[serde(default)]
+    pub unusable_before: Vec<u8>,
 }
 
 fn records_strategy() -> impl Strategy<Value = Records> {
     (0u8..2, any::<bool>(), any::<u8>(), proptest::collection::vec((0u8..2, proptest::option::weighted(0.4, any::<u8>()), proptest::option::weighted(0.25, any::<u8>()), any::<u8>()), 1..7))
-        .prop_map(|(store, counter, site, steps)| Records { store, counter, site, steps })
+        .prop_map(|(store, counter, site, steps)| {
+            let short_scalars = steps.len() % 3 == 0;
+            let unusable_before = if site % 3 == 0 { steps.iter().enumerate().filter(|(_, s)| s.3 % 2 == 0).map(|(i, _)| i as u8).collect() } else { vec![] };
+            Records { store, counter, site, steps, short_scalars, unusable_before }
+        })
 }
 
 pub fn check_records(ctx: &mut Ctx, c: &Records) -> Result<(), String> {
@@ -109,18 +121,44 @@ pub fn check_records(ctx: &mut Ctx, c: &Records) -> Result<(), String> {
     ctx.nontrivial(c);
     let home = c.site as usize % SITES.len();
     let ids: [Vec<u8>; 2] = [b"c03-records-credential-0".to_vec(), b"c03-records-credential-1!".to_vec()];
-    let mk = |k: usize, seed: u64| make_passkey(7000 + seed * 2 + k as u64, SITES[home].effective, &ids[k], Some(format!("records-user-{k}").as_bytes()), c.counter.then_some(3), None);
+    let mk = |k: usize, seed: u64| {
+        let key_seed = if c.short_scalars { crate::model::util::short_scalar_seeds()[(seed as usize * 2 + k) % 4] } else { 7000 + seed * 2 + k as u64 };
+        let mut pk = make_passkey(key_seed, SITES[home].effective, &ids[k], Some(format!("records-user-{k}").as_bytes()), c.counter.then_some(3), None);
+        if c.short_scalars {
+            crate::model::util::trim_scalar(&mut pk);
+        }
+        pk
+    };
+    if c.short_scalars {
+        ctx.class("records whose private scalar is shorter than 32 bytes");
+    }
     let model_of = |k: usize, pk: &passkey_types::Passkey| {
         let s = snap(pk);
         ModelCred { rp: SITES[home].effective.to_string(), id: ids[k].clone(), x: s.x.unwrap(), y: s.y.unwrap(), user_handle: s.user_handle.clone(), counter: s.counter, assertions: 0, started_near_max: false }
     };
     let first = [mk(0, 0), mk(1, 0)];
     let mut model = vec![model_of(0, &first[0]), model_of(1, &first[1])];
+    // a third record whose key cannot be used for signing by this authenticator
+    let unusable = {
+        let mut pk = make_passkey(7999, SITES[home].effective, b"c03-records-credential-unusable", Some(b"records-user-2"), c.counter.then_some(3), None);
+        if c.site % 2 == 0 {
+            pk.key.alg = None;
+        } else {
+            pk.key.alg = Some(coset::RegisteredLabelWithPrivate::Assigned(coset::iana::Algorithm::EdDSA));
+        }
+        pk
+    };
     fn go<S: cm::StoreAccess>(ctx: &mut Ctx, c: &Records, store: S, home: usize, model: &mut Vec<ModelCred>, mk: &dyn Fn(usize, u64) -> passkey_types::Passkey, model_of: &dyn Fn(usize, &passkey_types::Passkey) -> ModelCred, replace: &dyn Fn(&mut S, passkey_types::Passkey)) -> Result<(), String> {
         let uv = ScriptedUv::new(UvScript::verified());
         let auth = crate::cer::build_authenticator(store, uv, &crate::cer::AuthCfg { counter: c.counter, ..Default::default() });
         let mut client = Client::new_with_custom_tld_provider(auth, HProvider::new(ProviderKind::Default)).allows_insecure_localhost(true);
         for (n, (k, rekey, other, uvreq)) in c.steps.iter().enumerate() {
+            if c.unusable_before.contains(&(n as u8)) {
+                let site = &SITES[home];
+                let req = crate::cer::request_options(site.rp, b"records: unusable key", Some(vec![crate::cer::descriptor(b"c03-records-credential-unusable")]), crate::cer::uv_req(*uvreq), None);
+                let r = std::panic::catch_unwind(std::panic::AssertUnwindSafe(|| block_on(client.authenticate(site.origin(), req, DefaultClientData)))).map_err(|_| format!("step #{n}: authenticate panicked on a record with an unusable key: {}", crate::last_panic()))?;
+                ctx.class(if r.is_ok() { "assertion on a record with an unusable key answered (not judged)" } else { "assertion on a record with an unusable key refused" });
+            }
             let k = *k as usize % 2;
             if let Some(seed) = rekey {
                 let pk = mk(k, 1 + *seed as u64);
@@ -155,7 +193,7 @@ pub fn check_records(ctx: &mut Ctx, c: &Records) -> Result<(), String> {
         Ok(())
     }
     if c.store % 2 == 0 {
-        let store = RefStore::with(Disc::Full, first.to_vec());
+        let store = RefStore::with(Disc::Full, first.iter().cloned().chain([unusable.clone()]).collect());
         go(ctx, c, store, home, &mut model, &mk, &model_of, &|s: &mut RefStore, pk| {
             let mut g = s.0.lock().unwrap();
             g.creds.retain(|p| p.credential_id != pk.credential_id);
@@ -163,7 +201,7 @@ pub fn check_records(ctx: &mut Ctx, c: &Records) -> Result<(), String> {
         })
     } else {
         let mut store = MemoryStore::new();
-        for p in first.iter() {
+        for p in first.iter().chain([&unusable]) {
             store.insert(p.credential_id.to_vec(), p.clone());
         }
         go(ctx, c, store, home, &mut model, &mk, &model_of, &|s: &mut MemoryStore, pk| {
